@@ -512,4 +512,35 @@ theorem mint_sites_name_minters :
     ((Sekai.Gen.BankFlows.mintBurn.filter fun r => r.2.2.1.endsWith "MintCoins" && !r.1.startsWith "x/tokens/").all fun r =>
       (Sekai.App.holders Sekai.Gen.App.maccPerms "authtypes.Minter").contains (Sekai.App.siteModule r.1 r.2.2.2)) = true := by decide +kernel
 
+
+/-- **a governance edit of a registered token leaves the registry's books alone**: whatever the proposal carries in its
+supply and cap fields, an enacted `UpsertTokenInfos` proposal for an existing denomination keeps the recorded supply (so it
+keeps equalling what was minted), the cap, the owner and the owner-edit switch -/
+theorem gov_edit_keeps_registry_fields (t t' : TokenInfo) (ps pc : Int) (h : govEdit t ps pc = some t') : t' = t := by
+  unfold govEdit at h
+  split at h
+  · cases h; rfl
+  · cases h
+
+/-- … hence a mint after the edit is still bounded by the cap as recorded before it -/
+theorem mint_after_gov_edit_within_cap (t t1 t2 : TokenInfo) (ps pc bank amt : Int) (b2 : Int)
+    (h1 : govEdit t ps pc = some t1) (h2 : registryMint t1 bank amt = some (t2, b2)) (hc : 0 < t.cap) :
+    t2.supply = t.supply + amt ∧ t2.supply ≤ t.cap := by
+  have e := gov_edit_keeps_registry_fields t t1 ps pc h1
+  subst e
+  unfold registryMint at h2
+  simp only at h2
+  split at h2
+  · rename_i hok
+    cases h2
+    refine ⟨rfl, ?_⟩
+    simp only [capOk, Bool.not_eq_true', Bool.and_eq_false_iff, decide_eq_false_iff_not] at hok
+    rcases hok with hok | hok
+    · exact absurd hc hok
+    · exact Int.not_lt.mp hok
+  · cases h2
+
+example : govEdit ⟨900, 1000, 2, false⟩ 0 0 = some ⟨900, 1000, 2, false⟩ ∧
+    registryMint ⟨900, 1000, 2, false⟩ 900 900 = none := by decide
+
 end Sekai.Props.C13
